@@ -5,3 +5,4 @@ pub mod runner;
 pub mod e_hashmap;
 pub mod e_handletable;
 pub mod e_stacks;
+pub mod e_module;
